@@ -334,6 +334,34 @@ def range_family(run, quick):
             fam.append((desc + " (step as a wrapping cast)", "bind-range-step-cast", prog2(False), prog2(True)))
     return fam
 
+def match_family(run, quick):
+    """deterministic pairs on `match`: the subject written directly (a cast, a negation, a remainder, a call result, a field) versus
+    bound to a fresh local first - the bind-subexpression rewrite at the one site where the lowering needs the subject's type from
+    its producer (seed C09e: a subject that is directly a cast lost its type and every value ran the default arm)"""
+    fam = []
+    pairs = [("i32", "i64"), ("u8", "i32"), ("i64", "i16")] if quick else [(t, t2) for t in core.ITYS for t2 in core.ITYS if t != t2][::3]
+    for t, t2 in pairs:
+        forms = {
+            "cast": lambda i: ("cast", ("bin", "%", ("var", i), ("lit", t2, 4)), t),
+            "remainder": lambda i: ("bin", "%", ("cast", ("var", i), t), ("lit", t, 4)),
+            "call": lambda i: ("call", 0, [("cast", ("var", i), t)]),
+            "field": lambda i: ("field", ("slit", 5 if False else 2, [("cast", ("var", i), "u16")]), 0),
+        }
+        if core.signed(t): forms["negation"] = lambda i: ("un", "-", ("un", "-", ("cast", ("var", i), t)))
+        for name, mk in forms.items():
+            st = "u16" if name == "field" else t
+            def prog(bound):
+                fns = [dict(params=[(9, t)], ret=t, body=[("return", ("var", 9))])]
+                subj = mk(3)
+                arms = [(0, [("print", [("lit", "i32", 10)])]), (1, [("print", [("lit", "i32", 20)])]), (2, [("print", [("lit", "i32", 30)])])]
+                inner = ([("let", 5, st, subj, True), ("match", ("var", 5), st, arms, [("print", [("lit", "i32", 99)])])] if bound
+                         else [("match", subj, st, arms, [("print", [("lit", "i32", 99)])])])
+                body = [("let", 1, t2, ("lit", t2, 0), True), ("let", 2, t2, ("lit", t2, 6), True),
+                        ("for", 3, t2, ("var", 1), ("var", 2), inner)]
+                return fns + [dict(params=[], ret="void", body=body)]
+            fam.append(("match on a %s of %s (loop variable %s)" % (name, t, t2), "bind-match-subject", prog(False), prog(True)))
+    return fam
+
 def main(run):
     work = Work()
     quick = run.tier == "quick"
@@ -364,7 +392,7 @@ def main(run):
     fam = edge_family(run, quick)
     for t, op, p0, p1 in fam:
         bases.append(p0); variants.append(p1); meta.append((len(bases) - 1, "bind-subexpr-edge", "%s %s consumed directly vs bound to a const first" % (t, op)))
-    for desc, kind, p0, p1 in range_family(run, quick):
+    for desc, kind, p0, p1 in range_family(run, quick) + match_family(run, quick):
         bases.append(p0); variants.append(p1); meta.append((len(bases) - 1, kind, desc))
     allp = bases + variants
     res = c01.compile_run_all(allp, work)
